@@ -11,6 +11,7 @@ import (
 	"bytes"
 	"crypto/rand"
 	"fmt"
+	"os"
 	"strings"
 
 	"verif/engine"
@@ -57,6 +58,10 @@ type seedT struct {
 	gen     func() []byte
 	protect func(seed []byte) [][2]int
 	parts   int // number of cases the 1-deviation enumeration is split into (default 1)
+	// hostile marks an artefact that the library produced from adversarial parameters (e.g. an SM9 ciphertext
+	// whose authenticated C2 is not a whole number of blocks): it is expected to be rejected, not accepted.
+	hostile      bool
+	thoroughOnly bool
 }
 
 // epT binds one entry point (with fixed non-hostile arguments) to its seeds.
@@ -67,6 +72,10 @@ type epT struct {
 	fast  bool // thorough tier: all 3-byte strings
 	der   bool // run the nesting probes
 	small bool // AllValues substitution (artefact is short)
+	// costly: a successful parse is followed by a pairing or similarly expensive work. Quick tier then uses the
+	// small substitution set even when small is set, and the 2-deviation window is 24 bytes.
+	costly       bool
+	thoroughOnly bool
 	// enc wraps DER into the carried form (PEM, base64). Mutation then happens on both levels.
 	enc func(der []byte) []byte
 	// pairLimit overrides the 2-deviation window (0 = default rule; <0 = no pair enumeration).
@@ -85,6 +94,7 @@ type cx struct {
 
 	nOK, nErr, nPanic int
 	suppressed        int
+	panics            int
 	classesOK         map[string]struct{}
 	classesErr        map[string]struct{}
 	selfErr           error
@@ -130,6 +140,7 @@ func (x *cx) g(name string, fn func()) (panicked bool) {
 		defer func() {
 			if r := recover(); r != nil {
 				panicked = true
+				x.panics++
 				k := name + "|" + normMsg(fmt.Sprint(r))
 				x.seen[k]++
 				if x.seen[k] > 3 {
@@ -181,9 +192,9 @@ func mutClass(desc string) string {
 func (x *cx) run(desc string, in []byte) {
 	x.desc = desc
 	x.in = x.g1.copy(in)
-	before := x.nPanicTotal()
+	before := x.panics
 	ok := x.ep.call(x, x.in)
-	if x.nPanicTotal() != before {
+	if x.panics != before {
 		x.nPanic++
 	} else if ok {
 		x.nOK++
@@ -200,18 +211,6 @@ func (x *cx) run(desc string, in []byte) {
 			x.classesErr[cl] = struct{}{}
 		}
 	}
-}
-
-func (x *cx) nPanicTotal() int {
-	n := x.suppressed
-	for _, v := range x.seen {
-		if v > 3 {
-			n += 3
-		} else {
-			n += v
-		}
-	}
-	return n
 }
 
 // finish flushes per-case accounting into the engine.
@@ -307,8 +306,64 @@ func (s seedT) get() []byte {
 	if len(b) == 0 {
 		panic("c13: seed " + s.name + " is empty")
 	}
+	b = append([]byte{}, b...)
 	seedMemo[s.name] = b
 	return b
+}
+
+// tryGet builds the seed; a failure of the library to build its own artefact is reported as an error string.
+func (s seedT) tryGet() (b []byte, err error) {
+	defer func() {
+		if r := recover(); r != nil {
+			err = fmt.Errorf("%v", r)
+		}
+	}()
+	return s.get(), nil
+}
+
+var seedReg = map[string]seedT{}
+
+func regSeed(s seedT) {
+	if _, ok := seedReg[s.name]; !ok {
+		seedReg[s.name] = s
+	}
+}
+
+// seedMemoOr returns the named seed (building it when needed); used for fixed non-hostile companions.
+func seedMemoOr(name string) []byte {
+	s, ok := seedReg[name]
+	if !ok {
+		panic("c13: unknown seed " + name)
+	}
+	return s.get()
+}
+
+var resetHooks []func()
+
+var epsCache []*epT
+
+func allEPs() []*epT {
+	if epsCache != nil {
+		return epsCache
+	}
+	var eps []*epT
+	eps = append(eps, epsSM2()...)
+	eps = append(eps, epsECDH()...)
+	eps = append(eps, epsSM9()...)
+	eps = append(eps, epsSMX509()...)
+	eps = append(eps, epsPKCS()...)
+	eps = append(eps, epsPKCS8()...)
+	eps = append(eps, epsPKCS7()...)
+	eps = append(eps, epsCFCA()...)
+	eps = append(eps, epsPadding()...)
+	eps = append(eps, epsCipher()...)
+	for _, e := range eps {
+		for _, s := range e.seeds {
+			regSeed(s)
+		}
+	}
+	epsCache = eps
+	return eps
 }
 
 func must[T any](v T, err error) T {
@@ -347,8 +402,27 @@ func protectedChanged(seed, m []byte, pr [][2]int) bool {
 	return false
 }
 
+// buildSeed returns the seed, or records (as measured evidence, not as a violation) that the library under
+// test could not build it.
+func buildSeed(t *engine.T, s seedT) ([]byte, [][2]int, bool) {
+	seed, err := s.tryGet()
+	if err != nil {
+		t.Extra("seeds_unbuildable", 1)
+		t.Sample(map[string]any{"seed": s.name, "unbuildable": err.Error()})
+		return nil, nil, false
+	}
+	var pr [][2]int
+	if s.protect != nil {
+		pr = s.protect(seed)
+	}
+	return seed, pr, true
+}
+
 func runEP(c *engine.Ctx, e *epT) {
 	quick := c.Quick()
+	if quick && e.thoroughOnly {
+		return
+	}
 	// all strings of length <= 2
 	c.Case(e.name+"/short<=2", func(t *engine.T) {
 		x := newCx(t, e)
@@ -394,33 +468,25 @@ func runEP(c *engine.Ctx, e *epT) {
 	}
 	for _, s := range e.seeds {
 		s := s
+		if quick && s.thoroughOnly {
+			continue
+		}
 		K := s.parts
 		if K < 1 {
 			K = 1
 		}
+		allValues := e.small && !(quick && e.costly)
 		for k := 0; k < K; k++ {
 			k := k
 			c.Case(fmt.Sprintf("%s/%s/mut1/%d-of-%d", e.name, s.name, k, K), func(t *engine.T) {
 				x := newCx(t, e)
-				seed := s.get()
-				var pr [][2]int
-				if s.protect != nil {
-					pr = s.protect(seed)
+				seed, pr, ok := buildSeed(t, s)
+				if !ok {
+					return
 				}
 				idx, n := 0, 0
-				feed := func(desc string, m []byte) {
-					if isNest(desc) {
-						return
-					}
-					i := idx
-					idx++
-					if i%K != k {
-						return
-					}
-					x.run(desc, m)
-					n++
-				}
-				// the unmodified seed first (vacuity guard: it must be accepted)
+				mine := func() bool { i := idx; idx++; return i%K == k }
+				// the unmodified seed first (vacuity guard)
 				if k == 0 {
 					carried := seed
 					if e.enc != nil {
@@ -428,45 +494,49 @@ func runEP(c *engine.Ctx, e *epT) {
 					}
 					x.run("seed", carried)
 					n++
-					if x.nOK != 1 {
-						t.Fail(e.name+"/harness/seed-not-accepted", "seed %s is not accepted by its own entry point (harness defect, not a library defect)", s.name)
+					if x.nOK != 1 && !s.hostile {
+						t.Extra("seeds_not_accepted", 1)
+						t.Sample(map[string]any{"entry_point": e.name, "seed": s.name, "seed_not_accepted": true})
 					}
 				}
-				if e.enc == nil {
-					engine.EachMutant(seed, engine.MutOpt{AllValues: e.small, DER: true, Protect: pr}, feed)
-				} else {
-					engine.EachMutant(seed, engine.MutOpt{AllValues: e.small, DER: true, Protect: pr}, func(desc string, m []byte) {
-						if isNest(desc) {
+				engine.EachMutant(seed, engine.MutOpt{AllValues: allValues, DER: true, Protect: pr}, func(desc string, m []byte) {
+					if isNest(desc) || !mine() {
+						return
+					}
+					if e.enc != nil {
+						m = e.enc(m)
+					}
+					x.run(desc, m)
+					n++
+				})
+				if e.enc != nil {
+					engine.EachMutant(e.enc(seed), engine.MutOpt{}, func(desc string, m []byte) {
+						if !mine() {
 							return
 						}
-						if idx%K != k { // avoid the encoding cost for other parts
-							idx++
-							return
-						}
-						feed(desc, e.enc(m))
+						x.run("text:"+desc, m)
+						n++
 					})
-					engine.EachMutant(e.enc(seed), engine.MutOpt{}, func(desc string, m []byte) { feed("text:"+desc, m) })
 				}
 				t.Sample(map[string]any{"entry_point": e.name, "seed": s.name, "seed_len": len(seed), "mutants": n, "accepted": x.nOK, "rejected": x.nErr, "panicked": x.nPanic})
 				x.finish(s.name, n)
 			})
 		}
 		if !quick && e.pairLimit >= 0 {
-			// 2-deviation substitution pairs; the window is decided from the static flags, the count from the seed.
+			// 2-deviation substitution pairs; the window is decided from the static flags and the seed length.
 			const P = 8
 			for k := 0; k < P; k++ {
 				k := k
 				c.Case(fmt.Sprintf("%s/%s/pair2/%d-of-%d", e.name, s.name, k, P), func(t *engine.T) {
 					x := newCx(t, e)
-					seed := s.get()
-					var pr [][2]int
-					if s.protect != nil {
-						pr = s.protect(seed)
+					seed, pr, ok := buildSeed(t, s)
+					if !ok {
+						return
 					}
 					limit := 24
 					if e.pairLimit > 0 {
 						limit = e.pairLimit
-					} else if len(seed) <= 128 {
+					} else if len(seed) <= 128 && !e.costly {
 						limit = len(seed)
 					}
 					idx, n := 0, 0
@@ -499,9 +569,13 @@ func (Prop) Run(c *engine.Ctx) {
 	}
 }
 
-// SelfTest: every seed is built twice (determinism) and must be accepted by its own entry point without a
-// panic (otherwise the mutation neighbourhood is vacuous). This is the "reference validation" of C13.
+// SelfTest validates the harness itself: unique names, every seed builds twice to identical bytes (no hidden
+// time / crypto/rand dependence) and the protect ranges are sane. With C13_STRICT=1 (development) it
+// additionally requires every non-hostile seed to be accepted without panic by its entry point; in normal runs
+// non-acceptance is reported as measured evidence (seeds_not_accepted), because a library under test that
+// rejects valid input violates other properties, not C13.
 func (Prop) SelfTest() error {
+	strict := os.Getenv("C13_STRICT") == "1"
 	eps := allEPs()
 	names := map[string]bool{}
 	first := map[string][]byte{}
@@ -511,7 +585,13 @@ func (Prop) SelfTest() error {
 		}
 		names[e.name] = true
 		for _, s := range e.seeds {
-			b := s.get()
+			b, err := s.tryGet()
+			if err != nil {
+				if strict {
+					return fmt.Errorf("seed %s cannot be built: %v", s.name, err)
+				}
+				continue
+			}
 			if old, ok := first[s.name]; ok && !bytes.Equal(old, b) {
 				return fmt.Errorf("seed name %q is bound to two different artefacts", s.name)
 			}
@@ -522,28 +602,33 @@ func (Prop) SelfTest() error {
 	seedMemo = map[string][]byte{}
 	for _, e := range eps {
 		for _, s := range e.seeds {
-			b := s.get()
+			b, err := s.tryGet()
+			if err != nil {
+				continue
+			}
 			if !bytes.Equal(b, first[s.name]) {
 				return fmt.Errorf("seed %q is not deterministic (two builds differ)", s.name)
-			}
-			x := &cx{ep: e, seen: map[string]int{}}
-			carried := b
-			if e.enc != nil {
-				carried = e.enc(b)
-			}
-			x.desc, x.in = "seed", carried
-			ok := e.call(x, carried)
-			if x.selfErr != nil {
-				return fmt.Errorf("entry point %s, seed %s: %v", e.name, s.name, x.selfErr)
-			}
-			if !ok {
-				return fmt.Errorf("entry point %s does not accept its seed %s", e.name, s.name)
 			}
 			if s.protect != nil {
 				for _, r := range s.protect(b) {
 					if r[0] < 0 || r[1] > len(b) || r[0] >= r[1] {
 						return fmt.Errorf("seed %s: bad protect range %v", s.name, r)
 					}
+				}
+			}
+			if strict && !s.hostile {
+				x := &cx{ep: e, seen: map[string]int{}}
+				carried := b
+				if e.enc != nil {
+					carried = e.enc(b)
+				}
+				x.desc, x.in = "seed", carried
+				ok := e.call(x, carried)
+				if x.selfErr != nil {
+					return fmt.Errorf("entry point %s, seed %s: %v", e.name, s.name, x.selfErr)
+				}
+				if !ok {
+					return fmt.Errorf("entry point %s does not accept its seed %s", e.name, s.name)
 				}
 			}
 		}
